@@ -21,7 +21,7 @@ import witness
 from tbf import AnalysisBroken
 
 LEVEL = "other"
-TECHNIQUE = "type-level witnesses (static_assert + probe kernel instantiated through both executors) and who-may-call / list-flag / container-role rules over executor summaries (clang AST)"
+TECHNIQUE = "type-level witnesses + who-may-call / list-flag / container-role rules over executor summaries; submission summaries (C03.a) and top-tree state rules (C12.5) re-exported"
 
 TSM = ["TbfAlgorithmTsm", "TbfOpenmpAlgorithmTsm"]
 
